@@ -457,6 +457,60 @@ def run(ctx):
 
     core.run_given(ctx, case_strategy(), body, ctx.n(1300, 5000), label="c13-main")
 
+    # previously created Environments / factories are "existing objects" too: configuring one must not reconfigure another (finite)
+    ctx.collect_only = True
+    for how in ENV_STEPS:
+        for second_first in (False, True):
+            case = {"special": "environment-isolation", "how": how, "second_first": second_first}
+            ctx.note(case, True, ["environment-isolation:" + how])
+            ctx.handle(case, check_environment_isolation(case))
+    ctx.collect_only = False
+
+
+ENV_STEPS = ["set_default_creator", "set_default_created", "set_default_external_refs", "set_default_object_marking_refs", "add_filter", "add_to_store"]
+
+
+def check_environment_isolation(case):
+    """Two Environments built the default way (no factory named); one is configured; what the other creates / answers stays as before."""
+    import stix2
+    mk = lambda: stix2.Environment(store=stix2.MemoryStore())
+    a, b = (mk(), mk()) if not case["second_first"] else tuple(reversed((mk(), mk())))
+    ident = "identity--311b2d2d-f010-4473-83ec-1edf84858f4c"
+    marking = "marking-definition--613f2e26-407d-48c7-9eca-b8e91df99dc9"
+
+    def observe(env):
+        o, exc = core.guarded(env.create, stix2.v21.Campaign, name="x", id="campaign--7e4ba2c2-6b3e-4a0f-9a6e-0e2f5f5d0a21", modified="9000-01-01T00:00:00.000Z")
+        q, exc2 = core.guarded(env.query, [])
+        return (core.short(json.loads(o.serialize()) if exc is None else core.fmt_exc(exc), 600),
+                sorted(x["id"] for x in q) if exc2 is None else core.fmt_exc(exc2))
+    before = observe(b)
+    how = case["how"]
+    if how == "set_default_creator":
+        a.set_default_creator(ident)
+    elif how == "set_default_created":
+        a.set_default_created("2019-01-01T00:00:00.000Z")
+    elif how == "set_default_external_refs":
+        a.set_default_external_refs([{"source_name": "s", "external_id": "e"}])
+    elif how == "set_default_object_marking_refs":
+        a.set_default_object_marking_refs([marking])
+    elif how == "add_filter":
+        a.add_filters([stix2.Filter("type", "=", "x-none")])
+    elif how == "add_to_store":
+        a.add(stix2.v21.Identity(name="i", id=ident))
+    after = observe(b)
+    # an unconfigured `created` comes from the clock: compared only when this step is about it
+    import re
+    strip = (lambda t: t[0]) if how == "set_default_created" else (lambda t: re.sub(r'"created": ?"[^"]*"', '"created":"<clock>"', t[0]))
+    if how == "set_default_created":
+        ok = '"created":"2019-01-01T00:00:00.000Z"' not in after[0].replace(" ", "")
+    else:
+        ok = strip(before) == strip(after)
+    if not ok or before[1] != after[1]:
+        return [("existing-object-modified:environment:" + how, "%s on one default-built Environment changed what another one creates / answers: %s -> %s" % (how, before, after))]
+    return []
+
 
 def replay(case):
+    if case.get("special") == "environment-isolation":
+        return check_environment_isolation(case)
     return check_case(case)
